@@ -58,6 +58,9 @@ TYPED = (
     "EXDATE;TZID=Etc/UTC:20240102T120000", "DTSTART;TZID=GMT:20240102T120000", "DTEND;TZID=/UTC:20240102T120000",
     "RDATE;VALUE=PERIOD;TZID=UTC:20240102T120000/PT1H", "RECURRENCE-ID;TZID=Zulu:20240102T120000", "DTSTART;TZID=Etc/GMT+5:20240102T120000",
     "DTSTART;TZID=Africa/Abidjan:20240102T120000", "EXDATE;TZID=UTC:20240102T120000",
+    # long all-ASCII lines (their lengths straddle multiples of 74 and 75; thousands of characters): many folds, same value
+    "DESCRIPTION:" + "lorem ipsum dolor sit amet " * 5 + "x" * 2, "DESCRIPTION:" + "y" * 137, "DESCRIPTION:" + "y" * 211, "DESCRIPTION:" + "y" * 212,
+    "COMMENT:" + "z" * 5543, "COMMENT:" + "word " * 1600, "ATTACH;ENCODING=BASE64;VALUE=BINARY:" + "QUJD" * 2000,
     # a TZID parameter on a DATE value (exporters write it on all-day events)
     "DTSTART;VALUE=DATE;TZID=Europe/Berlin:20240301", "DUE;TZID=Europe/Berlin;VALUE=DATE:20240302", "RDATE;VALUE=DATE;TZID=Europe/Berlin:20240301,20240302",
     # the ends of the INTEGER range (RFC 5545 3.3.8) and of rule-part ranges
